@@ -180,7 +180,7 @@ def check_cases(ctx, cases):
         discovery.BaseDiscoveryGraph.do_query = dq
         err = None
         try:
-            with ctx.time_limit(30):
+            with ctx.time_limit(10):
                 rc, rs, rd = discovery.filter_known_objects(Archive(), lambda o, k: log.append((nid(oid(o)), bool(k))))
         except (RuntimeError, ImplementationHang) as e:
             err = "discovery does not terminate: " + str(e)
